@@ -2,6 +2,7 @@
    Statements only; every proof is [exact <lemma>]. *)
 From FMP Require Import Base.Bytes Base.Lts Model.Events Model.Skeleton Model.Props Model.Lifecycle
      Model.Generated Model.GenTypes Model.Msgpack Model.Frame Proofs.LifecycleProofs Proofs.SkeletonProofs Proofs.ClassifyProofs.
+From FMP Require Import Model.Paths Proofs.PathProofs.
 From FMP Require Import Model.CodecCfg Proofs.CodecCfgProofs.
 Open Scope Z_scope.
 
@@ -49,6 +50,18 @@ Proof. eexists. split; vm_compute; reflexivity. Qed.
 Theorem C07_one_read_attempt_per_frame : cdf_nextframe_once codecfacts_now = true.
 Proof. exact codec_nextframe_once. Qed.
 
+(* not-found is answered, not fatal: on every path through the function body as it is in the source now (regenerated into Generated.body_census, enumerated by Model/Paths.v) of receiveHandler.handleReceiveDispatch, a request whose decoding recorded an error or whose protocol / method is not registered gets exactly one Reply as the last action and no handler goroutine; a servable request gets no Reply from the receive goroutine and exactly one goroutine, started on the arm that registered its task *)
+Theorem C07_source_not_found_is_replied_once : dispatch_paths_notfound = true.
+Proof. exact paths_dispatch_notfound. Qed.
+
+(* a response for an unknown seqno is ignored: DecodeMessage stops after decoding the seqno, unwraps and decompresses nothing; receiveResponse hands over at most once and has a default arm *)
+Theorem C07_source_unknown_response_ignored : response_paths_unknown_ignored = true.
+Proof. exact paths_response_unknown_ignored. Qed.
+
+(* whatever ends the receive loop, closeWithErr is the last call of the goroutine, exactly once, and Receive only follows NextFrame *)
+Theorem C07_source_receive_loop_closes : receive_loop_paths_close = true.
+Proof. exact paths_receive_loop_close. Qed.
+
 Print Assumptions C07_observers_agree.
 Print Assumptions C07_stop_irreversible.
 Print Assumptions C07_err_fixed.
@@ -56,3 +69,6 @@ Print Assumptions C07_continues_iff_not_fatal.
 Print Assumptions C07_classification_generated_ok.
 Print Assumptions C07_local_close_err_nil_refuted.
 Print Assumptions C07_one_read_attempt_per_frame.
+Print Assumptions C07_source_not_found_is_replied_once.
+Print Assumptions C07_source_unknown_response_ignored.
+Print Assumptions C07_source_receive_loop_closes.
